@@ -173,7 +173,7 @@ type schedScenario struct {
 
 func (sc *schedScenario) runOne(t *testing.T, j *vlib.Job, prefix []int) *sched.Exec {
 	res := &sched.Exec{}
-	j.WriteJournal(map[string]any{"scenario": sc.name, "choices": prefix})
+	j.WriteJournal(map[string]any{"scenario": sc.name, "choices": prefix, "case": j.Int("case", 0)})
 	inBubble(t, func() {
 		x := &schedExec{j: j, prefix: prefix}
 		x.dir = freshDir(j)
@@ -215,6 +215,10 @@ func (sc *schedScenario) runOne(t *testing.T, j *vlib.Job, prefix []int) *sched.
 		vsync.FineHook = nil
 		y.VerifPointFn = nil
 		switch {
+		case len(s.Panics) > 0:
+			res.Outcome = "PANIC"
+			res.Violation = s.Panics[0]
+			res.Class = "panic/" + panicClass(s.Panics[0])
 		case s.Diverged != "":
 			res.Violation, res.Class = "replay diverged: "+s.Diverged, "internal/diverged"
 		case s.Deadlock:
@@ -227,7 +231,7 @@ func (sc *schedScenario) runOne(t *testing.T, j *vlib.Job, prefix []int) *sched.
 		default:
 			res.Outcome, res.Violation, res.Class = sc.check(x)
 		}
-		if s.Deadlock {
+		if s.Deadlock || len(s.Panics) > 0 {
 			// cannot tear down reliably: the blocked goroutines stay behind in the dead bubble
 			bubbleLeakOK = true
 			return
@@ -240,6 +244,27 @@ func (sc *schedScenario) runOne(t *testing.T, j *vlib.Job, prefix []int) *sched.
 		_ = os.RemoveAll(x.dir)
 	})
 	return res
+}
+
+func panicClass(p string) string {
+	i := strings.Index(p, "panic: ")
+	if i >= 0 {
+		p = p[i+7:]
+	}
+	if j := strings.IndexByte(p, '\n'); j >= 0 {
+		p = p[:j]
+	}
+	var b strings.Builder
+	for _, r := range p {
+		if r < '0' || r > '9' {
+			b.WriteRune(r)
+		}
+	}
+	out := strings.TrimSpace(b.String())
+	if len(out) > 60 {
+		out = out[:60]
+	}
+	return out
 }
 
 func trimDump(d string) string {
